@@ -152,7 +152,9 @@ CLAIMED = {
              "_set/_delete over raw nodes and the database, on ANY partial database (whatever is stored under a node's hash is its "
              "encoding), returns exactly the complete-database result or stops at the FIRST fetch the database cannot answer "
              "(raw_set_partial, raw_delete_partial), and a reported hash is absent and on the requested path / the normalisation "
-             "sibling (raw_set_missing_on_path, raw_delete_missing_on_path). Tie: result or every exception field, state after the "
+             "sibling (raw_set_missing_on_path, raw_delete_missing_on_path); the raw-level traverse / get over rlp-decoded nodes return "
+             "the tree-level result or the FIRST hashed node on the path that is absent, with the exact nibbles consumed "
+             "(raw_traverse_partial, raw_get_partial) - word for word what opGet/opTraverse report. Tie: result or every exception field, state after the "
              "failure, retry loop run to convergence, inside and outside squash_changes; the raw-level set/delete, get and traverse "
              "are run on the same incomplete databases (reported node, consumed nibbles, result).",
         technique="Lean 4 proof (event-order invariant ReadsFirst, executor case analysis) + correspondence check with node removal",
